@@ -51,7 +51,9 @@ def isModuleFile (doc : Str) (p : Str) : Bool :=
 def filterModule (b : Bucket) : Bucket := b.filter (fun e => isModuleFile (docPath b) e.1)
 
 /-- The walk callback of getFilesDigestForB5Digest / getB4Digest: hash the content, build a
-    validated FileNode; the first error aborts the walk. -/
+    validated FileNode; the first error aborts the walk.  Since the line-feed fix `NewFileNode`
+    rejects a path containing U+000A, so a module file with such a path makes every digest of
+    the module an error (`pathLineFeed`) instead of an ambiguous manifest. -/
 def walkNodes (H : Bytes → Digest) : Bucket → Except MErr (List FileNode)
   | [] => .ok []
   | (p, c) :: rest =>
@@ -228,5 +230,52 @@ def moduleDigest (H : Bytes → Digest) (ms : List Mod) : Nat → Nat → Except
         | .error e => .error e
         | .ok ds => moduleB5 H m.bucket ds
       else moduleB5 H m.bucket m.pinned
+
+/-! ### The b5 computation BEFORE the line-feed fix (`NewFileNode` accepted U+000A).  Kept only
+    to state the recorded counterexample `BufProofs.C08.newline_collision_counterexample`. -/
+
+namespace Old
+
+def walkNodes (H : Bytes → Digest) : Bucket → Except MErr (List FileNode)
+  | [] => .ok []
+  | (p, c) :: rest =>
+    match newFileNodeOld p (H c) with
+    | .error e => .error e
+    | .ok n => match walkNodes H rest with
+      | .error e => .error e
+      | .ok ns => .ok (n :: ns)
+
+def filesDigest (H : Bytes → Digest) (b : Bucket) : Except MErr Digest :=
+  match walkNodes H (filterModule b) with
+  | .error e => .error e
+  | .ok nodes => manifestDigest H nodes
+
+def moduleB5 (H : Bytes → Digest) (raw : Bucket) (deps : List MDigest) : Except MErr MDigest :=
+  match filesDigest H (filterModule raw) with
+  | .error e => .error e
+  | .ok fd =>
+    match depStrings deps with
+    | .error e => .error e
+    | .ok ss => .ok ⟨.b5, H (utf8 (b5Preimage fd (sortBy strLe ss)))⟩
+
+def manifestText (H : Bytes → Digest) (b : Bucket) : Str :=
+  match walkNodes H (filterModule b) with
+  | .error _ => []
+  | .ok nodes => match newManifest nodes with
+    | .error _ => []
+    | .ok m => manifestString m
+
+def b5FinalText (H : Bytes → Digest) (b : Bucket) (deps : List MDigest) : List Str :=
+  match filesDigest H b, depStrings deps with
+  | .ok fd, .ok ss => [b5Preimage fd (sortBy strLe ss)]
+  | _, _ => []
+
+/-- everything the pre-fix `moduleB5` hashes -/
+def b5Inputs (H : Bytes → Digest) (raw : Bucket) (deps : List MDigest) : List Bytes :=
+  (filterModule (filterModule raw)).map (·.2)
+    ++ [utf8 (manifestText H (filterModule raw))]
+    ++ (b5FinalText H (filterModule raw) deps).map utf8
+
+end Old
 
 end BufModel.Digest
